@@ -25,6 +25,8 @@ ap.add_argument('--runs', type=int)
 ap.add_argument('--all-checks', action='store_true',
                 help='run every check, not only the one for the property')
 ap.add_argument('--scratch', action='store_true')
+ap.add_argument('--checks', help='comma-separated check ids to run instead '
+                'of the check of the property the change breaks')
 ap.add_argument('names', nargs='*')
 args = ap.parse_args()
 REPO = '/repo'
@@ -52,7 +54,8 @@ for d in dirs:
     meta = json.load(open(d + 'meta.json'))
     prop = meta['property']
     ids = ['C08', 'C09', 'C10', 'C12', 'C13', 'C17', 'C20'] \
-        if args.all_checks else [prop]
+        if args.all_checks else \
+        (args.checks.split(',') if args.checks else [prop])
     r = subprocess.run(['git', '-C', REPO, 'apply', d + 'patch.diff'],
                        capture_output=True, text=True)
     if r.returncode != 0:
